@@ -52,6 +52,22 @@ def main():
     tag = d.strip("/").replace("/", "_")[-40:]
     wt = f"/tmp/wt/eval-{tag}"
     res = {"dir": d}
+    if "--detect-only" in args:
+        # re-run the checks only (the confirmation recorded in eval.json is kept)
+        old = json.load(open(os.path.join(d, "eval.json")))
+        sh(f"git -C /repo worktree remove --force {wt}")
+        r = sh(f"git -C /repo worktree add -q --detach {wt} HEAD")
+        try:
+            ra = sh(f"git -C {wt} apply {patch}")
+            if ra.returncode:
+                print("patch does not apply:", ra.stdout[-300:])
+                return 2
+            old["detected_by"] = run_checks(wt, props)
+        finally:
+            sh(f"git -C /repo worktree remove --force {wt}")
+        json.dump(old, open(os.path.join(d, "eval.json"), "w"), indent=1)
+        print(d, "confirmed" if old.get("confirmed") else "NOT-CONFIRMED", "detected_by", sorted(old["detected_by"]))
+        return 0
     sh(f"git -C /repo worktree remove --force {wt}")
     r = sh(f"git -C /repo worktree add -q --detach {wt} HEAD")
     if r.returncode:
